@@ -76,14 +76,89 @@ fn rebuild(cfg: &Cfg, hasher: &TableHasher, ops: &[Op]) -> (Sut, u32) {
     (sut, vid)
 }
 
-fn journal(path: &Option<String>, text: &str) {
-    if let Some(p) = path {
-        let _ = std::fs::write(p, text);
+/// Crash journal: the history about to be executed is written into a shared file
+/// mapping (no system call per transition); if the process dies the file still
+/// holds the last history.
+pub struct Journal {
+    ptr: *mut u8,
+    len: usize,
+    _file: Option<std::fs::File>,
+}
+
+extern "C" {
+    fn mmap(addr: *mut std::ffi::c_void, len: usize, prot: i32, flags: i32, fd: i32, off: i64) -> *mut std::ffi::c_void;
+}
+
+impl Journal {
+    pub fn open(path: &Option<String>) -> Journal {
+        use std::os::unix::io::AsRawFd;
+        const LEN: usize = 8192;
+        if let Some(p) = path {
+            if let Ok(f) = std::fs::OpenOptions::new().read(true).write(true).create(true).truncate(true).open(p) {
+                if f.set_len(LEN as u64).is_ok() {
+                    let ptr = unsafe { mmap(std::ptr::null_mut(), LEN, 3, 1, f.as_raw_fd(), 0) };
+                    if ptr as isize != -1 && !ptr.is_null() {
+                        return Journal { ptr: ptr as *mut u8, len: LEN, _file: Some(f) };
+                    }
+                }
+            }
+        }
+        Journal { ptr: std::ptr::null_mut(), len: 0, _file: None }
+    }
+    pub fn write(&self, text: &str) {
+        if self.ptr.is_null() {
+            return;
+        }
+        let b = text.as_bytes();
+        let n = b.len().min(self.len - 1);
+        unsafe {
+            std::ptr::copy_nonoverlapping(b.as_ptr(), self.ptr, n);
+            *self.ptr.add(n) = b'\n';
+            if n + 1 < self.len {
+                std::ptr::write_bytes(self.ptr.add(n + 1), 0, (self.len - n - 1).min(256));
+            }
+        }
+    }
+}
+
+/// Which violations stop the expansion of a state: those of the property under
+/// check, known findings of any property (their consequences would be reported
+/// again and again under other names), and anything that means the cache's memory
+/// can no longer be trusted. Violations of other properties are recorded but the
+/// search goes on through them, so that they cannot mask the property under check.
+pub struct Prune {
+    pub prop: String,
+    pub known: Vec<(String, String)>,
+}
+
+impl Prune {
+    pub fn from_env() -> Prune {
+        let prop = std::env::var("MMVERIF_PROP").unwrap_or_default();
+        let known = std::env::var("MMVERIF_KNOWN")
+            .unwrap_or_default()
+            .split(';')
+            .filter_map(|kv| kv.split_once('=').map(|(a, b)| (a.to_string(), b.to_string())))
+            .collect();
+        Prune { prop, known }
+    }
+    pub fn is_known(&self, v: &Violation) -> bool {
+        self.known.iter().any(|(p, pat)| {
+            p == v.prop
+                && match pat.strip_suffix('*') {
+                    Some(pre) => v.sig.starts_with(pre),
+                    None => *pat == v.sig,
+                }
+        })
+    }
+    pub fn stops(&self, v: &Violation) -> bool {
+        self.prop.is_empty() || v.prop == self.prop || v.prop == "C08" || self.is_known(v)
     }
 }
 
 pub fn run_job(cfg: &Cfg, journal_path: Option<String>, wall_cap_s: f64) -> JobResult {
+    let prune = Prune::from_env();
     let t0 = Instant::now();
+    let journal = Journal::open(&journal_path);
     let hasher = make_hasher(cfg.hash);
     let alpha = alphabet(cfg);
     let mut res = JobResult {
@@ -135,7 +210,7 @@ pub fn run_job(cfg: &Cfg, journal_path: Option<String>, wall_cap_s: f64) -> JobR
                 }
                 let mut full = hist_ops.clone();
                 full.push(*op);
-                journal(&journal_path, &witness(cfg, &full));
+                journal.write(&witness(cfg, &full));
 
                 let (mut sut, _vid) = rebuild(cfg, &hasher, &hist_ops);
                 res.replays += 1;
@@ -187,7 +262,7 @@ pub fn run_job(cfg: &Cfg, journal_path: Option<String>, wall_cap_s: f64) -> JobR
                     }
                 }
                 if !viols.is_empty() {
-                    res.pruned_violating += 1;
+                    let stop = dead || viols.iter().any(|vv| prune.stops(vv));
                     for mut vv in viols {
                         res.viol_total += 1;
                         // keep the first (shortest, BFS) witness per (property, signature)
@@ -196,7 +271,10 @@ pub fn run_job(cfg: &Cfg, journal_path: Option<String>, wall_cap_s: f64) -> JobR
                             res.violations.push(vv);
                         }
                     }
-                    continue;
+                    if stop {
+                        res.pruned_violating += 1;
+                        continue;
+                    }
                 }
                 let post = post.unwrap();
                 let fp = state_fp(cfg, &post, now, &model);
@@ -233,7 +311,7 @@ pub fn run_job(cfg: &Cfg, journal_path: Option<String>, wall_cap_s: f64) -> JobR
         }
     }
     res.wall_s = t0.elapsed().as_secs_f64();
-    journal(&journal_path, "done");
+    journal.write("done");
     res
 }
 
